@@ -284,6 +284,17 @@ static RunSpec derive_spec(const std::string& world, int variant, uint64_t run_s
       g.max_calls = 3;
       g.table_ops = g.simple_ops = g.q120 = false;
     }
+    if (variant == 0 && !g.simple_storm && !g.large_world && rc.chance(3, 100)) {
+      // cold world: nothing of the library has run in this process when the tasks start; every task creates, uses and
+      // deletes its own objects (the first CPU-feature probe, the first table constructions happen concurrently)
+      g.module_ops = g.table_ops = g.simple_ops = g.q120 = false;
+      g.life_ops = true;
+      g.column_groups = false;
+      g.ntasks = 2 + (int)rc.below(4);
+      g.min_calls = 1;
+      g.max_calls = 3;
+      s.warm = 0;
+    }
     if (variant == 1) {
       // column-split world: threads produce byte-adjacent columns of one block with the vector-output entry points
       g.column_groups = g.column_world = true;
